@@ -30,6 +30,8 @@ ASSUMPTIONS = [
 MIN_NONTRIVIAL = {"quick": 400, "thorough": 5000}
 REQUIRED_COUNTERS = {"boundary_faults_escaped": {"quick": 300, "thorough": 2000},
                      "pair_faults": {"quick": 100, "thorough": 2000},
+                     "pair_faults_UnhashableFault": {"quick": 20, "thorough": 400},
+                     "pair_faults_EqualFault": {"quick": 20, "thorough": 400},
                      "line_faults_injected": {"quick": 300, "thorough": 10000},
                      "arbitrary_inputs": {"quick": 40, "thorough": 40}}
 SHARD_TIMEOUT = {"quick": 400, "thorough": 5400}
@@ -96,6 +98,32 @@ def worker(spec):
     budget = ctxwork.Budget(spec.get("budget_s", 60))
     rng = random.Random(spec["seed"] * 7 + 1)
     InjectedFault = failpoints.InjectedFault
+
+    class EqualFault(InjectedFault):
+        """all instances compare (and hash) equal"""
+
+        def __eq__(self, other):
+            return isinstance(other, EqualFault)
+
+        def __hash__(self):
+            return 17
+
+    class UnhashableFault(InjectedFault):
+        """value semantics like a plain @dataclass exception: __eq__ without __hash__"""
+
+        def __eq__(self, other):
+            return isinstance(other, UnhashableFault) and self.args == other.args
+
+        __hash__ = None
+
+    class HostileFault(InjectedFault):
+        def __eq__(self, other):
+            raise RuntimeError("__eq__ called on a recorded error")
+
+        def __hash__(self):
+            raise RuntimeError("__hash__ called on a recorded error")
+
+    FAULT_CLASSES = [InjectedFault, EqualFault, UnhashableFault, HostileFault, InjectedFault]
 
     # make sure every glue is installed and trickery is detected before anything is patched
     stackscope.extract_since(None)
@@ -444,7 +472,13 @@ def worker(spec):
                         base_k = list(base_frames)
                         got = [f.pyframe for f in s.frames]
                         constructed = list(fl["constructed"])
-                    if fl["key"][0] in ("unwrap_stackitem", "frameiterator_next", "line") and not fl["emitted"]:
+                    # was the fault raised while an item was being *unwrapped* (the frame it would have
+                    # produced does not exist yet) or while an existing frame was being elaborated?
+                    inner_boundary = [sc["name"] for sc in fl["scopes"] if sc["kind"] == "boundary"]
+                    unwrap_type = fl["key"][0] in ("unwrap_stackitem", "frameiterator_next") or (
+                        fl["key"][0] == "line" and (not inner_boundary or inner_boundary[-1] in (
+                            "unwrap_stackitem", "frameiterator_next")))
+                    if unwrap_type and not fl["emitted"]:
                         # unwrap phase: frames already constructed to the left of the failing call (and
                         # present in the fault-free result) must still be there, in order; the last one
                         # is excused because its next_inner changed
@@ -453,7 +487,7 @@ def worker(spec):
                         ok = all(any(g is w for g in it) for w in want)
                     else:
                         k = fl["emitted"] or 0
-                        n = k + (0 if fl["key"][0] in ("unwrap_stackitem", "frameiterator_next") else 1)
+                        n = k + (0 if unwrap_type else 1)
                         want = base_k[:n]
                         ok = len(got) >= len(want) and all(a is b for a, b in zip(got, want))
                     if not ok:
@@ -486,18 +520,24 @@ def worker(spec):
                     "frames": [f.funcname for f in s0.frames]})
         if spec["leg"] == "boundary":
             keys = [(n, k) for n, cnt in sorted(base.items()) for k in range(1, cnt + 1)]
-            for key in keys:
-                s, raised = run_once(thunk, {key: InjectedFault(repr(key))})
+            for nkey, key in enumerate(keys):
+                s, raised = run_once(thunk, {key: FAULT_CLASSES[nkey % len(FAULT_CLASSES)](repr(key))})
                 res.count("boundary_faults_injected")
                 res.count("kind_" + key[0])
                 judge(sc_name, key, s, raised, base_frames, key)
             pairs = [(a, b) for i, a in enumerate(keys) for b in keys[i + 1:]]
             rng.shuffle(pairs)
+            npair = 0
             for a, b in pairs[: spec["pairs"]]:
                 if budget.over():
                     res.count("budget_cut")
                     break
-                s, raised = run_once(thunk, {a: InjectedFault(repr(a)), b: InjectedFault(repr(b))})
+                # faults raised by real hooks are arbitrary user exceptions: value-semantics ones
+                # (equal / unhashable / hostile __eq__ and __hash__) must be handled like any other
+                npair += 1
+                cls = FAULT_CLASSES[npair % len(FAULT_CLASSES)]
+                res.count("pair_faults_" + cls.__name__)
+                s, raised = run_once(thunk, {a: cls(repr(a)), b: cls(repr(b))})
                 res.count("pair_faults")
                 if len(ST["faults"]) == 2:
                     res.count("pair_faults_both_reached")
